@@ -579,8 +579,10 @@ class Circuit:
         such that the circuit length is reduced. Note that any components in a
         group will be ignored.
         """
-        # Convert circuit spec and then assign to attribute
-        new_spec = compress_mode_swaps(deepcopy(self.__circuit_spec))
+        # Convert circuit spec and then assign to attribute, Parameters are
+        # excluded from the copy so the circuit keeps following their values
+        memo = {id(p): p for p in self.get_all_params()}
+        new_spec = compress_mode_swaps(deepcopy(self.__circuit_spec, memo))
         self.__circuit_spec = new_spec
 
     def remove_non_adjacent_bs(self) -> None:
@@ -588,8 +590,10 @@ class Circuit:
         Removes any beam splitters acting on non-adjacent modes by replacing
         with a mode swap and adjacent beam splitters.
         """
-        # Convert circuit spec and then assign to attribute
-        spec = deepcopy(self.__circuit_spec)
+        # Convert circuit spec and then assign to attribute, Parameters are
+        # excluded from the copy so the circuit keeps following their values
+        memo = {id(p): p for p in self.get_all_params()}
+        spec = deepcopy(self.__circuit_spec, memo)
         new_spec = convert_non_adj_beamsplitters(spec)
         self.__circuit_spec = new_spec
 
